@@ -212,7 +212,7 @@ def check_named_values(got, ref, key, what, stats, tol=O.TOL, tag="value"):
     return out
 
 
-def check_matrix(got, ref, scale, key, what, stats, rows, cols, tol=O.TOL, tag="matrix"):
+def check_matrix(got, ref, scale, key, what, stats, rows, cols, tol=O.TOL, tag="matrix", floor=1.0):
     out = []
     got = np.asarray(got, dtype=float)
     if got.shape != ref.shape:
@@ -223,7 +223,7 @@ def check_matrix(got, ref, scale, key, what, stats, rows, cols, tol=O.TOL, tag="
             if not (math.isfinite(ref[i, j]) and math.isfinite(sc[i, j]) and sc[i, j] < 1e150):
                 stats.inc("unusable_reference")
                 continue
-            e = O.nerr(got[i, j], ref[i, j], sc[i, j])
+            e = O.nerr(got[i, j], ref[i, j], sc[i, j], floor)
             stats.inc(f"{tag}_entries_compared")
             stats.mx(f"{tag}_nerr", e)
             if not e <= tol:
@@ -536,10 +536,11 @@ def contract_sensor_model(ctx, ekf, state, covariance, sname, reading, result, s
         out.append(V("sensor_model:innovation-not-recorded", f"innovation / S not recorded for {sname}"))
     else:
         ysc = np.abs(z) + shx.reshape(-1, 1)
+        fl = getattr(ctx, "floor", 1.0)
         out += check_matrix(np.asarray(rec_y).reshape(m, 1), ref["y"], ysc, "sensor_model:innovation",
                             f"recorded innovation[{sname}]", stats, readings, ["y"], tag="innovation")
         out += check_matrix(np.asarray(rec_S), ref["S"], ref["scale_S"], "sensor_model:S",
-                            f"recorded innovation covariance[{sname}]", stats, readings, readings, tag="S")
+                            f"recorded innovation covariance[{sname}]", stats, readings, readings, tag="S", floor=fl)
     # was it rejected?
     Sinv = np.linalg.inv(ref["S"])
     nis = float((ref["y"].T @ Sinv @ ref["y"])[0, 0])
@@ -567,10 +568,11 @@ def contract_sensor_model(ctx, ekf, state, covariance, sname, reading, result, s
                          f"reading with NIS {nis:.6g} > threshold was not discarded unchanged (k={k}, m={m})"))
         return out
     stats.inc("sensor_updates_accepted")
+    fl = getattr(ctx, "floor", 1.0)
     out += check_matrix(got_x, ref["x"], ref["scale_x"], "sensor_model:state", f"sensor_model[{sname}] state",
                         stats, ctx.state, ["x"], tag="sm_state")
     out += check_matrix(got_P, ref["P"], ref["scale_P"], "sensor_model:covariance",
-                        f"sensor_model[{sname}] covariance", stats, ctx.state, ctx.state, tag="sm_cov")
+                        f"sensor_model[{sname}] covariance", stats, ctx.state, ctx.state, tag="sm_cov", floor=fl)
     # consequences: symmetry and P_prior - P_post >= 0
     sP = max(1.0, float(np.max(np.abs(P), initial=0.0)))
     asym = float(np.max(np.abs(got_P - got_P.T), initial=0.0))
